@@ -10,6 +10,7 @@ import (
 	"io"
 	"os"
 	"runtime"
+	"sync"
 	"sync/atomic"
 	"time"
 
@@ -73,6 +74,7 @@ func (v yVFS) Stat(p string) (os.FileInfo, error) {
 	return v.in.Stat(p)
 }
 func (v yVFS) Lstat(p string) (os.FileInfo, error) {
+	gatePoint("vfs.Lstat")
 	yield()
 	defer yield()
 	return v.in.Lstat(p)
@@ -110,6 +112,7 @@ func (k yKV) BeginBatch() sorted.BatchMutation {
 	return k.in.BeginBatch()
 }
 func (k yKV) CommitBatch(b sorted.BatchMutation) error {
+	gatePoint("kv.CommitBatch")
 	yield()
 	defer yield()
 	return k.in.CommitBatch(b)
@@ -122,7 +125,7 @@ func (k yKV) Close() error { return k.in.Close() }
 
 type yIter struct{ sorted.Iterator }
 
-func (it yIter) Next() bool { yield(); return it.Iterator.Next() }
+func (it yIter) Next() bool { gatePoint("kv.Next"); yield(); return it.Iterator.Next() }
 
 func init() {
 	sorted.RegisterKeyValue("c14yieldmem", func(jsonconfig.Obj) (sorted.KeyValue, error) {
@@ -140,6 +143,7 @@ func (s yStorage) Fetch(ctx context.Context, br blob.Ref) (io.ReadCloser, uint32
 	return s.in.Fetch(ctx, br)
 }
 func (s yStorage) ReceiveBlob(ctx context.Context, br blob.Ref, src io.Reader) (blob.SizedRef, error) {
+	gatePoint("sto.ReceiveBlob")
 	yield()
 	defer yield()
 	return s.in.ReceiveBlob(ctx, br, src)
@@ -168,3 +172,50 @@ func (f yFetcher) Fetch(ctx context.Context, br blob.Ref) (io.ReadCloser, uint32
 	defer yield()
 	return f.in.Fetch(ctx, br)
 }
+
+// ---- gates: deterministic schedules for the witnesses of the known findings ---------------------------
+
+// A gate stops the goroutine that reaches a named wrapper entry point for the nth time, until it is
+// released; the probe runs other calls to completion meanwhile.
+type gate struct {
+	mu      sync.Mutex
+	point   string
+	nth     int
+	reached chan struct{}
+	release chan struct{}
+}
+
+var theGate atomic.Pointer[gate]
+
+func armGate(point string, nth int) *gate {
+	g := &gate{point: point, nth: nth, reached: make(chan struct{}), release: make(chan struct{})}
+	theGate.Store(g)
+	return g
+}
+
+func gatePoint(p string) {
+	g := theGate.Load()
+	if g == nil || g.point != p {
+		return
+	}
+	g.mu.Lock()
+	g.nth--
+	hit := g.nth == 0
+	g.mu.Unlock()
+	if hit {
+		close(g.reached)
+		<-g.release
+	}
+}
+
+// waitReached reports whether the gated goroutine arrived.
+func (g *gate) waitReached() bool {
+	select {
+	case <-g.reached:
+		return true
+	case <-time.After(5 * time.Second):
+		return false
+	}
+}
+
+func (g *gate) open() { theGate.Store(nil); close(g.release) }
